@@ -148,6 +148,12 @@ var invalidClasses = []invalidClass{
 }
 
 func init() {
+	for _, id := range []int{0, 6, 64} {
+		id := id
+		invalidClasses = append(invalidClasses, invalidClass{fmt.Sprintf("id:duplicate-respelled-%d", id), func(r *gen.Rand) (reflect.Type, string) {
+			return reflect.TypeOf(int32(0)), fmt.Sprintf("DUPPAD:%d", id)
+		}, false})
+	}
 	for _, id := range []int{0, 1, 31, 32, 63, 64, 65, 127, 128, 255, 256, 1023, 1024, 4095, 4096} {
 		id := id
 		invalidClasses = append(invalidClasses, invalidClass{fmt.Sprintf("id:duplicate-at-%d", id), func(r *gen.Rand) (reflect.Type, string) {
@@ -191,6 +197,12 @@ func buildInvalid(r *gen.Rand, ic *invalidClass, pos string) (bad reflect.Type, 
 	badF := reflect.StructField{Name: schema.UniqueName("Bad"), Type: ft, Tag: reflect.StructTag(tag)}
 	if tag == "DUP" {
 		badF.Tag = reflect.StructTag(tagOf("5,default,i32")) // duplicates the id of Ok
+	}
+	if strings.HasPrefix(tag, "DUPPAD:") {
+		// the same id written in two accepted spellings (decimal with leading zeros)
+		id, _ := strconv.Atoi(tag[len("DUPPAD:"):])
+		fields = append(fields, reflect.StructField{Name: schema.UniqueName("Twin"), Type: reflect.TypeOf(""), Tag: reflect.StructTag(tagOf(fmt.Sprintf("%d,default,string", id)))})
+		badF.Tag = reflect.StructTag(tagOf(fmt.Sprintf("%0*d,default,i32", len(fmt.Sprint(id))+1+r.Intn(3), id)))
 	}
 	if strings.HasPrefix(tag, "DUPEDGE:") {
 		// two fields share an id at the edges of every plausible id bookkeeping structure
